@@ -36,5 +36,23 @@ def rowsIffOutputs (c : Case) (p : Pred) (o : Obs) : Bool :=
   let im := o.returns.headD ""
   !((pm == "noRows" && im == "") || (pm == "" && im == "noRows"))
 
+/-- `Driver/Rt.lean`, `txEndFaithful` (C12, "Commit makes all of them take effect together,
+    Rollback none of them"): what ends the transaction at the driver (the commit and rollback
+    events, in order) is what the reference machine says the caller's Commit and Rollback calls
+    amount to (with finishers racing each other the reference machine does not say which one
+    wins) -/
+def txEnds (l : List String) : List String := l.filter fun e => e == "commit" || e == "rollback"
+
+def txEndFaithful (c : Case) (p : Pred) (o : Obs) : Bool :=
+  if c.concurrent != 0 then true else
+  txEnds (p.log.map Ev.render) == txEnds o.events
+
+/-- `Driver/Rt.lean`, `getReadsFirstOnly` (C15, "Get stores the first row"): Get fetches no
+    further than the reference machine does (what lies behind the first row - more rows, a
+    failure - is none of its business) -/
+def getReadsFirstOnly (c : Case) (p : Pred) (o : Obs) : Bool :=
+  if c.op != "get" then true else
+  (o.events.filter (· == "next")).length ≤ ((p.log.map Ev.render).filter (· == "next")).length
+
 end Rt
 end Sqlair
